@@ -5,7 +5,7 @@ ST = "verif-stubs/async_backend.py"
 
 
 def register(R):
-    R.ghost(delivered="int", live_gens="int", last_timeout="opt[xreal]")
+    R.ghost(delivered="int", live_gens="int", last_timeout="opt[xreal]", io_exc="int", filter_calls="int", filter_accepts="int")
     R.external("contextlib.nullcontext", "stubs.async_backend.NullContext")
     R.module(ST)
     R.shape("NullContextModel", cls="NullContext", fields={})
@@ -18,6 +18,8 @@ def register(R):
     R.module("easynetwork/lowlevel/api_async/servers/stream.py")
     K, BUF = "self.consumer._StreamDataConsumer__consumer", "self.consumer._StreamDataConsumer__buffer"
     U = f"(({K}.T if not isnone({K}) else b'') + {BUF})"
+    register_server_read_variants(R)
+    R.module("easynetwork/lowlevel/api_async/servers/stream.py")
     R.shape("_RequestReceiver", cls="_RequestReceiver",
             fields={"transport": "AsyncStreamReadTransport", "consumer": "StreamDataConsumer", "max_recv_size": "int",
                     "disconnect_error_filter": "opt[fn:stubs.async_backend:error_filter]", "__null_timeout_ctx": "NullContextModel", "__backend": "AsyncBackend"},
@@ -43,7 +45,7 @@ def register(R):
             f"{U} + orempty(data) == {X}",     # the chunk just received is either still in `data` or already with the consumer
             f"implies(not isnone(data), len(data) >= 1)",
             f"implies(not isnone(data), fn('S_kind', 'int', {U}) == 0)",
-        ] + cons_inv}},
+        ] + cons_inv + FILTER_INV}},
         ensures=[
             ("a-request-is-sent-to-the-handler-only-when-the-parser-completed-one (exactly the next one)",
              f"implies({is_send}, {p['done']} and result.value == {p['pkt']} and {U} == {p['rest']})", "C15 C01"),
@@ -52,16 +54,65 @@ def register(R):
             ("a-timeout-cancellation-or-transport-failure-is-thrown-only-when-no-complete-request-is-buffered-and-loses-nothing",
              f"implies({is_throw} and not typeof(result.exception, 'StreamProtocolParseError'), {U} == {X} and fn('S_kind', 'int', {X}) == 0)", "C15 C10"),
             ("always-an-action", f"{is_send} or {is_throw}", "C15"),
-        ] + [(f"consumer-inv-{i}", e, "C15") for i, e in enumerate(cons_inv)],
+        ] + FILTER_POST + [(f"consumer-inv-{i}", e, "C15") for i, e in enumerate(cons_inv)],
         raises={
             "StopAsyncIteration": [("only-at-end-of-stream-or-filtered-disconnect-with-no-complete-request-buffered", f"{U} == {X} and fn('S_kind', 'int', {X}) == 0", "C15 C03")]
-                                  + [(f"consumer-inv-{i}", e, "C15") for i, e in enumerate(cons_inv)],
+                                  + FILTER_STOP + [(f"consumer-inv-{i}", e, "C15") for i, e in enumerate(cons_inv)],
         },
-        modifies=[BUF, K, "ghost.IN", "ghost.recv_calls", "ghost.EOF", "ghost.io_errors"],
+        modifies=[BUF, K, "ghost.IN", "ghost.recv_calls", "ghost.EOF", "ghost.io_errors"] + FMODS,
+        env={"callee_variant": VAR},
         tags="C15 C10",
     )
     register_buffered(R)
     register_client_task(R)
+
+
+filt = "self.disconnect_error_filter"
+FILTER_INV = [f"implies(not isnone({filt}), ghost.filter_calls - old(ghost.filter_calls) == ghost.io_exc - old(ghost.io_exc))",
+              "ghost.filter_accepts == old(ghost.filter_accepts)"]
+FILTER_POST = [
+    ("every-Exception-the-transport-raises-is-shown-to-the-disconnect-filter (whatever its class)",
+     f"implies(not isnone({filt}), ghost.filter_calls - old(ghost.filter_calls) == ghost.io_exc - old(ghost.io_exc))", "C15"),
+    ("a-failure-the-filter-classifies-as-a-disconnection-is-never-handed-to-the-handler (it ends the request stream)",
+     "ghost.filter_accepts == old(ghost.filter_accepts)", "C15"),
+]
+FILTER_STOP = [FILTER_POST[0], ("the-request-stream-ends-on-at-most-one-accepted-disconnection", "ghost.filter_accepts <= old(ghost.filter_accepts) + 1", "C15")]
+FMODS = ["ghost.io_exc", "ghost.filter_calls", "ghost.filter_accepts"]
+VAR = {"AsyncStreamReadTransport.recv": "server", "AsyncStreamReadTransport.recv_into": "server"}
+
+
+def register_server_read_variants(R):
+    """The read transport as the request receivers use it: the same trusted contract as in c_endpoints_async, with one more
+    ghost — ghost.io_exc counts the failures that are `Exception`s (candidates for the disconnect filter), as opposed to
+    cancellation and the other BaseExceptions."""
+    R.module("easynetwork/lowlevel/api_async/transports/abc.py")
+    fail = ["ghost.IN == old(ghost.IN)", "ghost.recv_calls == old(ghost.recv_calls) + 1", "ghost.EOF == old(ghost.EOF)", "ghost.io_errors == old(ghost.io_errors) + 1"]
+    R.contract(
+        "AsyncStreamReadTransport.recv", variant="server",
+        params={"bufsize": "int"}, result="bytes", trusted=True,
+        requires=[("positive-size", "bufsize >= 1")],
+        ensures=["len(result) <= bufsize", "ghost.IN == old(ghost.IN) + result", "ghost.recv_calls == old(ghost.recv_calls) + 1",
+                 "ghost.EOF == (old(ghost.EOF) or len(result) == 0)", "ghost.io_errors == old(ghost.io_errors)", "ghost.io_exc == old(ghost.io_exc)"],
+        raises={"Exception": fail + ["ghost.io_exc == old(ghost.io_exc) + 1"], "BaseException": fail + ["ghost.io_exc == old(ghost.io_exc)"]},
+        modifies=["ghost.IN", "ghost.recv_calls", "ghost.EOF", "ghost.io_errors", "ghost.io_exc"],
+    )
+    failb = fail + ["base(buffer) == old(base(buffer))"]
+    R.contract(
+        "AsyncStreamReadTransport.recv_into", variant="server",
+        params={"buffer": "view"}, result="int", trusted=True,
+        requires=[("room", "len(buffer) >= 1")],
+        ensures=[
+            "0 <= result and result <= len(buffer)",
+            "ghost.IN == old(ghost.IN) + buffer[:result]",
+            "ghost.recv_calls == old(ghost.recv_calls) + 1",
+            "ghost.EOF == (old(ghost.EOF) or result == 0)",
+            "ghost.io_errors == old(ghost.io_errors)", "ghost.io_exc == old(ghost.io_exc)",
+            "len(ghost.IN) == len(old(ghost.IN)) + result",
+            "base(buffer) == old(base(buffer))[:view_lo(buffer)] + ghost.IN[len(old(ghost.IN)):] + old(base(buffer))[view_lo(buffer) + result:]",
+        ],
+        raises={"Exception": failb + ["ghost.io_exc == old(ghost.io_exc) + 1"], "BaseException": failb + ["ghost.io_exc == old(ghost.io_exc)"]},
+        modifies=["buffer", "ghost.IN", "ghost.recv_calls", "ghost.EOF", "ghost.io_errors", "ghost.io_exc"],
+    )
 
 
 def register_buffered(R):
@@ -105,7 +156,7 @@ def register_buffered(R):
             f"implies(isnone(nbytes), {U} == {X})",
             # bytes just written by the transport (not yet announced to the consumer) sit right after the already-written region
             f"implies(not isnone(nbytes), nbytes >= 1 and not isnone({K}) and not isnone({V}) and nbytes <= len({V}) and {pend} == {X} and fn('S_kind', 'int', {U}) == 0)",
-        ] + inv}},
+        ] + inv + FILTER_INV}},
         ensures=[
             ("a-request-is-sent-to-the-handler-only-when-the-parser-completed-one (exactly the next one)",
              f"implies({is_send}, {p['done']} and result.value == {p['pkt']} and {U} == {p['rest']})", "C15 C01"),
@@ -114,10 +165,10 @@ def register_buffered(R):
             ("a-timeout-cancellation-or-transport-failure-is-thrown-only-when-no-complete-request-is-buffered-and-loses-nothing",
              f"implies({is_throw} and not typeof(result.exception, 'StreamProtocolParseError') and not typeof(result.exception, 'RuntimeError'), {U} == {X} and fn('S_kind', 'int', {X}) == 0)", "C15 C10"),
             ("always-an-action", f"{is_send} or {is_throw}", "C15"),
-        ] + cons,
-        raises={"StopAsyncIteration": [("only-at-end-of-stream-or-filtered-disconnect-with-no-complete-request-buffered", f"{U} == {X} and fn('S_kind', 'int', {X}) == 0", "C15 C03")] + cons},
-        modifies=[B, CA, V, s, w, K, B + ".data", "ghost.IN", "ghost.recv_calls", "ghost.EOF", "ghost.io_errors"],
-        env={"call_hints": {"get_write_buffer": [("pending-bytes-so-far", f"{K}.T + {B}[{sp}:{sp} + {w}] == U0 + ghost.IN[len(old(ghost.IN)):]")], "recv_into": [
+        ] + FILTER_POST + cons,
+        raises={"StopAsyncIteration": [("only-at-end-of-stream-or-filtered-disconnect-with-no-complete-request-buffered", f"{U} == {X} and fn('S_kind', 'int', {X}) == 0", "C15 C03")] + FILTER_STOP + cons},
+        modifies=[B, CA, V, s, w, K, B + ".data", "ghost.IN", "ghost.recv_calls", "ghost.EOF", "ghost.io_errors"] + FMODS,
+        env={"callee_variant": VAR, "call_hints": {"get_write_buffer": [("pending-bytes-so-far", f"{K}.T + {B}[{sp}:{sp} + {w}] == U0 + ghost.IN[len(old(ghost.IN)):]")], "recv_into": [
             ("written-region-extends-the-pending-bytes", f"{B}[{sp}:{sp} + {w} + result] == pre({B}[{sp}:{sp} + {w}]) + ghost.IN[len(pre(ghost.IN)):]"),
             ("received-so-far-splits-at-this-read", "ghost.IN[len(old(ghost.IN)):] == pre(ghost.IN)[len(old(ghost.IN)):] + ghost.IN[len(pre(ghost.IN)):]"),
             ("all-pending-bytes-are-in-front-of-the-generator", f"{K}.T + {B}[{sp}:{sp} + {w} + result] == U0 + ghost.IN[len(old(ghost.IN)):]"),
@@ -192,6 +243,6 @@ def register_client_task_variant(R, variant, shape, cons_inv, gen, closed_once, 
         env={"call_hints": {"next": [("the-receiver-waits-exactly-the-timeout-the-handler-just-yielded", "arg('timeout') == pre(ghost.last_timeout)", "C15"),
                                      ("once-the-connection-is-being-closed (by the handler or anyone) no further request is read or handed to the handler",
                                       "not pre(transport.close_requested)", "C15 C14")]}},
-        modifies=["transport.close_requested", "ghost.delivered", "ghost.actions", "ghost.live_gens", "ghost.last_timeout", "ghost.IN", "ghost.recv_calls", "ghost.EOF", "ghost.io_errors"],
+        modifies=["transport.close_requested", "ghost.delivered", "ghost.actions", "ghost.live_gens", "ghost.last_timeout", "ghost.IN", "ghost.recv_calls", "ghost.EOF", "ghost.io_errors"] + FMODS,
         tags="C15 C14",
     )
